@@ -3,7 +3,9 @@ import json
 from common import *
 
 PREFIXES = [b"x", b"x1", b"x10", b"x2", b"http", b"http0", b"http00", b"http1", b"a", b"", b"ret", b"_a0",
-            b"\xc3\xa9", b"0", b"1", b"ctx", b"ctx1"]
+            b"\xc3\xa9", b"0", b"1", b"ctx", b"ctx1",
+            # keywords and printed types: AddVar records them too, they are names like any other
+            b"type", b"range", b"func", b"[]string", b"map[string]T", b"*T", b"a.b", b"a b"]
 NAMES = [b"http", b"http0", b"http00", b"http1", b"x", b"x0", b"x1", b"", b"0", b"pkg", b"a", b"\xc3\xa9p"]
 PATHS = [b"a/http", b"b/http", b"c/http0", b"d/http", b"e/x", b"f/x", b"dst/pkg", b"net/http", b"z", b"", b"a/http/v2",
          b"A/http", b"a/\xc3\xa9"]
